@@ -286,8 +286,8 @@ def _has_trigger(case):
 
 def _density(chk, wd):
     rng = random.Random(1000003 * chk.seed + 17)
-    n_general = vf.tier_n(chk.tier, 60, 900)
-    n_wrap = vf.tier_n(chk.tier, 12, 120)
+    n_general = vf.tier_n(chk.tier, 200, 1500)
+    n_wrap = vf.tier_n(chk.tier, 24, 120)
     exe = vf.exe("asan", "csg_density")
     env = vf.lib_env("asan")
     cases = []
@@ -347,10 +347,10 @@ def run(chk):
                              "-fno-builtin-floor so that float-cast-overflow "
                              "sees the index casts"}
     shards = 16
-    plan = [("main", vf.tier_n(chk.tier, 15000, 650000)),
-            ("legacy", vf.tier_n(chk.tier, 600, 20000)),
-            ("wrap", vf.tier_n(chk.tier, 12, 100)),
-            ("huge", vf.tier_n(chk.tier, 12, 100)),
+    plan = [("main", vf.tier_n(chk.tier, 100000, 650000)),
+            ("legacy", vf.tier_n(chk.tier, 3000, 20000)),
+            ("wrap", vf.tier_n(chk.tier, 20, 100)),
+            ("huge", vf.tier_n(chk.tier, 20, 100)),
             ("legacyx", vf.tier_n(chk.tier, 9, 60))]
     jobs, what = [], []
     for mode, n in plan:
